@@ -512,9 +512,6 @@ Lemma v0_exposes_nonce :
 Proof. vm_compute. split; reflexivity. Qed.
 
 (** ---- the policy carries the nonce ---- *)
-Definition sep_tail (post : bytes) : Prop := post = [] \/ exists p, post = SEMI_SP ++ p.
-Definition sep_head (pre : bytes) : Prop := pre = [] \/ exists p, pre = p ++ SEMI_SP.
-
 Lemma sep_tail_app p1 p2 : sep_tail p1 -> sep_tail p2 -> sep_tail (p1 ++ p2).
 Proof.
   intros [->|[p ->]] H2; [exact H2|]. right. exists (p ++ p2). rewrite app_assoc. reflexivity.
@@ -605,6 +602,20 @@ Proof.
     repeat (first [left; reflexivity|right]).
 Qed.
 
+(** nonce_in_directives for the rules kvarn builds (27 named directives) *)
+Lemma nonce_in_four_directives (r : csp_rule) n d :
+  length (fst r) = 27%nat -> hv_to_str_ok n = true -> In d nonce_directives ->
+  exists vals v pre post,
+    In ([d], vals) (combine directive_names (fst r)) /\
+    to_header_nonce r (Some n) = Some v /\
+    v = pre ++ d ++ [c_sp] ++ (if is_nil (join_sp vals) then SELF_SP else join_sp vals ++ [c_sp]) ++ nonce_source n ++ post /\
+    sep_head pre /\ sep_tail post.
+Proof.
+  intros L Hn Hd. destruct (nonce_directive_present (fst r) d L Hd) as [vals Hin].
+  destruct (to_header_nonce_directive r n d vals Hn Hd Hin) as [v [pre [post H]]].
+  exists vals, v, pre, post. split; [exact Hin|exact H].
+Qed.
+
 (** ---- the nonce page ---- *)
 Lemma h_get_insert_same n v h : h_get n (h_insert n v h) = Some v.
 Proof. rewrite h_get_hd, h_all_insert_same. reflexivity. Qed.
@@ -628,9 +639,6 @@ Proof.
   intros cache_on m status compress. unfold Cache.may_store, Cache.wants_cache, fat_of. cbn.
   rewrite andb_false_r. reflexivity.
 Qed.
-
-Definition nonce_reply (n : bytes) (handler : page) : page :=
-  {| pg_body := nonce_spec n (pg_body handler); pg_headers := h_insert H_NONCE n (pg_headers handler); pg_pref := SNone |}.
 
 Lemma page_history_nonce rng handler : forall n calls,
   page_history nonce_rewrite rng true handler n {| st_calls := calls; st_cache := None |}
